@@ -112,7 +112,7 @@ func e2eCaseOf(content []byte, banned []directive.Enumeration) (ec e2eCase) {
 		// diagnostics located at an ENUM (collectRules) are raised by a stage outside the model
 		for _, d := range flattenDirs(c2.VerifDirectivesWithPastes()) {
 			_, kb, _ := d.VerifKeywordCoords()
-			if d.Type() == directive.Enum && kb == uint(je.Index()) {
+			if d.Type() == directive.Enum && kb == uint(je.Index()) && cl != "required:Name" && cl != "duplicateNames" {
 				ec.Skip = "diagnostic of a stage outside the model"
 				return
 			}
@@ -444,7 +444,7 @@ func e2eCaseOfProject(p Project, order []string) (ec e2eCase) {
 		}
 		for _, dd := range flattenDirs(c2.VerifDirectivesWithPastes()) {
 			file, kb, _ := dd.VerifKeywordCoords()
-			if dd.Type() == directive.Enum && kb == uint(je.Index()) && file == je.VerifFile() {
+			if dd.Type() == directive.Enum && kb == uint(je.Index()) && file == je.VerifFile() && cl != "required:Name" && cl != "duplicateNames" {
 				ec.Skip = "diagnostic of a stage outside the model"
 				return
 			}
